@@ -1057,6 +1057,8 @@ where
                     result.union_operand(first.clone());
                     ClassSetOperator::Intersection
                 } else {
+                    // A single '&' is an ordinary class member: keep the first operand too.
+                    result.union_operand(first);
                     result.codepoints.add_one(0x26 /* & */);
                     ClassSetOperator::Union
                 }
